@@ -1406,6 +1406,7 @@ def perturb(p: dict, rng: vlib.Rng) -> tuple[str, dict] | None:
 FUEL = 600
 CAP_KEY = "accept_loop-iteration-cap"
 MI_KEY = "isinstance-union-item-dropped-despite-common-subclass"
+FLAG_KEY = "flag-enum-narrowed-as-closed-set-of-named-members"
 
 
 def units_of(p: dict) -> list[tuple[str, list[int]]]:
@@ -1934,7 +1935,7 @@ def tyname(v, depth=0):
     if isinstance(v, set): return ["set", [tyname(x, depth + 1) for x in list(v)[:6]]]
     if isinstance(v, dict): return ["dict", [[tyname(a, depth + 1), tyname(b, depth + 1)] for a, b in list(v.items())[:6]]]
     if callable(v) and not isinstance(v, type): return ["callable"]
-    return ["obj", [c.__name__ for c in type(v).__mro__]]
+    return ["obj", [c.__name__ for c in type(v).__mro__], getattr(v, "name", None) if "Enum" in [c.__name__ for c in type(v).__mro__] else None]
 class Timeout(Exception): pass
 def on_alarm(*a): raise Timeout()
 signal.signal(signal.SIGALRM, on_alarm)
@@ -2045,7 +2046,12 @@ def wide_member(v: list, t: str) -> bool | None:
             return k in ("int", "bool") and v[1] == int(lit)
         if lit.startswith("'"):
             return k == "str" and repr(v[1]) == lit
-        return None   # enum literal etc.
+        em = re.fullmatch(r"(?:[\w]+\.)*(\w+)\.(\w+)", lit)
+        if em:                       # Literal[mod.Enum.MEMBER]
+            if k != "obj":
+                return False
+            return em.group(1) in v[1] and len(v) > 2 and v[2] == em.group(2)
+        return None
     m = re.fullmatch(r"(?:builtins\.)?(list|set|Sequence|Iterable)\[(.*)\]", t) or re.fullmatch(r"typing\.(Sequence|Iterable)\[(.*)\]", t)
     if m:
         if m.group(1) in ("list", "set") and k != m.group(1):
@@ -2088,13 +2094,20 @@ def wide_member(v: list, t: str) -> bool | None:
     return None
 
 
-def wide_stage(ctx: vlib.Ctx, tmp: str, n: int) -> None:
+def wide_stage(ctx: vlib.Ctx, tmp: str, n: int, n_flow: int | None = None) -> None:
     mods: dict[str, str] = {}
     meta: dict[str, tuple[list[str], str]] = {}
     for i in range(n):
         src, calls, fam = wide_program(vlib.Rng(ctx.seed, f"wide/{i}"))
         mods[f"w{i}"] = src
         meta[f"w{i}"] = (calls, fam)
+    for i, (name, src, calls) in enumerate(directed_shard()):        # fixed corpus: independent of the seed
+        mods[f"wd{i}"] = src
+        meta[f"wd{i}"] = (calls, "directed:" + name)
+    for i in range(n_flow if n_flow is not None else n):
+        src, calls = FlowGen(vlib.Rng(ctx.seed, f"flow/{i}")).program()
+        mods[f"wf{i}"] = src
+        meta[f"wf{i}"] = (calls, "flow")
     mres = run_mypy(tmp, mods, workers=vlib.NPROC)
     stats = ctx.cov.setdefault("wide", {"programs": 0, "accepted": 0, "rejected": 0, "runs": 0, "probes_checked": 0,
                                         "probes_undecided": 0, "families": {}})
@@ -2119,7 +2132,10 @@ def wide_stage(ctx: vlib.Ctx, tmp: str, n: int) -> None:
             mm = re.match(r'Revealed type is "(.*)"$', msg)
             if sev == "note" and mm:
                 notes.setdefault(ln, []).append(mm.group(1))
-        info[m] = (notes, sorted({ln for ln, msg, code in errs if msg.startswith("Statement is unreachable")}))
+        # a line that carries another diagnostic was analysed in some loop pass: mypy's per-iteration bookkeeping may still
+        # list a compound-statement header as unreachable (reporting artefact, not a soundness claim)
+        analysed = {ln for ln, sev, msg, code in mres[m] if not msg.startswith("Statement is unreachable")}
+        info[m] = (notes, sorted({ln for ln, msg, code in errs if msg.startswith("Statement is unreachable")} - analysed))
         items.append({"tag": m, "src": mods[m], "calls": meta[m][0]})
     if not items:
         return
@@ -2163,7 +2179,7 @@ def wide_stage(ctx: vlib.Ctx, tmp: str, n: int) -> None:
             if bad is None and hit:
                 bad = f"line {hit[0]}, reported unreachable by mypy, was executed"
             if bad is not None:
-                key = {"loop_chain": CAP_KEY, "mi_isinstance": MI_KEY}.get(fam) or f"wide:{fam}:{bad[:60]}"
+                key = {"loop_chain": CAP_KEY, "mi_isinstance": MI_KEY, "directed:flag-identity": FLAG_KEY}.get(fam) or f"wide:{fam}:{re.sub(r'[0-9]+', 'N', bad[:70])}"
                 ctx.violation(key, f"[{fam}] mypy accepts the program but {bad}", {"kind": "wide", "family": fam, "src": mods[m], "call": r["call"], "outcome": r})
 
 
@@ -2172,7 +2188,10 @@ def run(ctx: vlib.Ctx) -> None:
     ctx.cov["rule"] = ("MiniPy programs well-typed by construction (classes with single/multiple inheritance, methods, functions, "
                        "if/elif/while/assert, all narrowing forms on locals) + 2 single-edit perturbations each + hand-written corpus; "
                        "non-trivial = a definition on which model and mypy are compared (verdict, first error line, revealed types, "
-                       "unreachable lines) or a CPython run compared with the extracted evaluator; wide generator: 12 families beyond MiniPy")
+                       "unreachable lines) or a CPython run compared with the extracted evaluator; wide generator: 12 template families + a fixed directed "
+                       "shard (nested try/with, closures vs later reassignment in for-else/while-else/try-else/match, identity/equality/in on "
+                       "enums incl. member-less bases, single-member enums and Flag) + random control-flow programs (try/except/else/finally, with, "
+                       "loops with break/continue/else, match with guards, closures, 10 union kinds) whose reads are all reveal_type probes")
     ctx.assumptions += [
         "CPython 3.12.1 is the oracle for run-time behaviour; mypy is run in-process (mypy.build.build, incremental off) with strict flags + "
         "disallow_any_* + warn_unreachable; errors with code [unreachable] are not counted as rejections but checked against execution",
@@ -2209,7 +2228,7 @@ def run(ctx: vlib.Ctx) -> None:
             ctx.sample({"program": progs[3][0], "source_head": src[:400]})
         wsub = os.path.join(tmp, "wide")
         os.makedirs(wsub)
-        wide_stage(ctx, wsub, ctx.n(30, 400))
+        wide_stage(ctx, wsub, ctx.n(30, 400), ctx.n(30, 300))
         ctx.log("wide stats: " + json.dumps(ctx.cov.get("wide")))
     finally:
         shutil.rmtree(tmp, ignore_errors=True)
@@ -2239,3 +2258,322 @@ def replay(ctx: vlib.Ctx, path: str) -> None:
             ctx.violation(d.get("key", "replay"), "replayed: mypy accepts, CPython raises " + r["exc"], rp)
     finally:
         shutil.rmtree(tmp, ignore_errors=True)
+
+
+# ---------------------------------------------------------------------------------------------
+# S beyond the fragment, part 2: control-flow / narrowing programs that are well typed by construction:
+# every read of a narrowed local is a `reveal_type` probe, so the oracle is "run-time value is a member of the
+# revealed type" (plus TypeError/AttributeError and execution of lines reported unreachable)
+# ---------------------------------------------------------------------------------------------
+
+FLOW_HEADER = """from __future__ import annotations
+from enum import Enum, Flag
+from types import TracebackType
+from typing import Callable, Dict, List, Optional, Tuple, Type, Union
+class E1(Exception):
+    pass
+class E2(Exception):
+    pass
+class E3(Exception):
+    pass
+class A:
+    def __init__(self, v: int) -> None:
+        self.v = v
+class B(A):
+    pass
+class Color(Enum):
+    RED = 1
+    GREEN = 2
+    BLUE = 3
+class Base(Enum):
+    pass
+class Kind(Base):
+    K1 = 1
+    K2 = 2
+class One(Enum):
+    ONLY = 1
+class Perm(Flag):
+    R = 1
+    W = 2
+class Maybe:
+    def __init__(self, swallow: bool) -> None:
+        self.swallow = swallow
+    def __enter__(self) -> Maybe:
+        return self
+    def __exit__(self, t: Optional[Type[BaseException]], v: Optional[BaseException], tb: Optional[TracebackType]) -> bool:
+        return self.swallow
+class Plain:
+    def __enter__(self) -> Plain:
+        return self
+    def __exit__(self, t: Optional[Type[BaseException]], v: Optional[BaseException], tb: Optional[TracebackType]) -> None:
+        return None
+TRIGGER: List[int] = [0]
+def mark(k: int) -> None:
+    if TRIGGER[0] == k:
+        if k % 3 == 0:
+            raise E1()
+        if k % 3 == 1:
+            raise E2()
+        raise E3()
+"""
+
+# kind -> (annotation, [value expressions], [narrowing conditions on {x}], match arms)
+FLOW_KINDS: dict[str, tuple[str, list[str], list[str], list[str]]] = {
+    "oi": ("Optional[int]", ["None", "1", "0", "7"], ["{x} is None", "{x} is not None", "{x}", "not {x}", "isinstance({x}, int)"],
+           ["case None:", "case int():", "case _:"]),
+    "ois": ("Union[int, str, None]", ["None", "2", "'s'", "''"],
+            ["{x} is None", "isinstance({x}, str)", "isinstance({x}, int)", "isinstance({x}, (int, str))", "not {x}", "{x} is not None and isinstance({x}, int)"],
+            ["case None:", "case int():", "case str() if len({x}) > 0:", "case str():", "case _:"]),
+    "col": ("Union[Color, None]", ["None", "Color.RED", "Color.GREEN", "Color.BLUE"],
+            ["{x} is Color.RED", "{x} == Color.GREEN", "{x} in (Color.RED, Color.BLUE)", "{x} is None", "{x} is not Color.BLUE", "{x} != Color.RED"],
+            ["case Color.RED:", "case Color.GREEN | Color.BLUE:", "case None:", "case _:"]),
+    "coli": ("Union[Color, int]", ["Color.RED", "Color.BLUE", "1", "5"],
+             ["{x} is Color.RED", "{x} == Color.BLUE", "isinstance({x}, Color)", "isinstance({x}, int)", "{x} in (Color.GREEN, Color.BLUE)"],
+             ["case Color.RED:", "case int():", "case _:"]),
+    "base": ("Union[Base, int]", ["Kind.K1", "Kind.K2", "3", "yb"],
+             ["{x} is yb", "{x} == yb", "{x} in (yb,)", "isinstance({x}, Base)", "{x} is not yb", "{x} != yb"],
+             ["case int():", "case Base():", "case _:"]),
+    "one": ("Union[One, int, None]", ["One.ONLY", "4", "None"],
+            ["{x} is One.ONLY", "{x} == One.ONLY", "{x} is None", "{x} is not One.ONLY", "isinstance({x}, int)"],
+            ["case One.ONLY:", "case None:", "case int():", "case _:"]),
+    "perm": ("Union[Perm, None]", ["None", "Perm.R", "Perm.W"],
+             ["{x} is None", "{x} is not None", "isinstance({x}, Perm)"],
+             ["case None:", "case Perm():", "case _:"]),
+    "bs": ("Union[bool, str]", ["True", "False", "'t'", "''"],
+           ["{x} is True", "{x} is False", "isinstance({x}, bool)", "isinstance({x}, str)", "not {x}"],
+           ["case True:", "case False:", "case str():", "case _:"]),
+    "obj": ("Union[A, B, None]", ["None", "A(1)", "B(2)"],
+            ["{x} is None", "isinstance({x}, B)", "isinstance({x}, A)", "{x} is not None and {x}.v > 1", "not {x}"],
+            ["case None:", "case B(v=vv):", "case A(v=1):", "case A():", "case _:"]),
+    "seq": ("Union[List[int], Tuple[int, str], Dict[str, int], None]", ["None", "[1, 2]", "[]", "(3, 'p')", "{{'k': 1}}", "{{}}"],
+            ["{x} is None", "isinstance({x}, list)", "isinstance({x}, dict)", "isinstance({x}, tuple)", "not {x}"],
+            ["case None:", "case [p0, p1]:", "case []:", "case (int(), str()):", "case {{'k': kv}}:", "case dict():", "case _:"]),
+}
+
+
+class FlowGen:
+    def __init__(self, rng: vlib.Rng) -> None:
+        self.r = rng
+        self.marks = 0
+        self.names = 0
+        ks = sorted(FLOW_KINDS)
+        self.vars = {f"x{i}": self.r.choice(ks) for i in range(self.r.randint(2, 3))}
+
+    def fresh(self, p: str) -> str:
+        self.names += 1
+        return f"{p}{self.names}"
+
+    def probe(self, ind: str) -> list[str]:
+        return [f"{ind}reveal_type({self.r.choice(sorted(self.vars))})"]
+
+    def assign(self, ind: str) -> list[str]:
+        x = self.r.choice(sorted(self.vars))
+        return [f"{ind}{x} = {self.r.choice(FLOW_KINDS[self.vars[x]][1]).replace('{{', '{').replace('}}', '}')}"]
+
+    def mark(self, ind: str) -> list[str]:
+        self.marks += 1
+        return [f"{ind}mark({self.marks})"]
+
+    def cond(self) -> str:
+        x = self.r.choice(sorted(self.vars))
+        return self.r.choice(FLOW_KINDS[self.vars[x]][2]).format(x=x)
+
+    def block(self, ind: str, depth: int, n: int | None = None, in_loop: bool = False) -> list[str]:
+        out: list[str] = []
+        for _ in range(n if n is not None else self.r.randint(2, 4)):
+            out += self.stmt(ind, depth, in_loop)
+            if self.r.random() < 0.6:
+                out += self.probe(ind)
+        return out or [f"{ind}pass"]
+
+    def stmt(self, ind: str, depth: int, in_loop: bool) -> list[str]:
+        r = self.r
+        k = r.random()
+        i2 = ind + "    "
+        if depth <= 0 or k < 0.30:
+            return self.assign(ind) + (self.mark(ind) if r.random() < 0.5 else [])
+        if k < 0.36:
+            return self.mark(ind)
+        if k < 0.50:
+            out = [f"{ind}if {self.cond()}:"] + self.block(i2, depth - 1, None, in_loop)
+            if r.random() < 0.4:
+                out += [f"{ind}elif {self.cond()}:"] + self.block(i2, depth - 1, None, in_loop)
+            if r.random() < 0.7:
+                out += [f"{ind}else:"] + self.block(i2, depth - 1, None, in_loop)
+            return out
+        if k < 0.68:
+            out = [f"{ind}try:"] + self.block(i2, depth - 1, None, in_loop)
+            hs = r.sample(["E1", "E2", "E3", "(E1, E2)", "(E2, E3)"], r.randint(1, 2))
+            for h in hs:
+                out += [f"{ind}except {h}:"] + self.block(i2, depth - 1, r.randint(1, 2), in_loop)
+            if r.random() < 0.4:
+                out += [f"{ind}else:"] + self.block(i2, depth - 1, r.randint(1, 2), in_loop)
+            if r.random() < 0.4:
+                out += [f"{ind}finally:"] + self.block(i2, 0, r.randint(1, 2), False)
+            return out
+        if k < 0.76:
+            mgr = r.choice(["Maybe(True)", "Maybe(False)", "Maybe(trigger % 2 == 0)", "Plain()"])
+            return [f"{ind}with {mgr}:"] + self.block(i2, depth - 1, None, in_loop)
+        if k < 0.86:
+            if r.random() < 0.5:
+                i = self.fresh("i")
+                out = [f"{ind}for {i} in range({r.randint(1, 4)}):"]
+            else:
+                i = self.fresh("w")
+                out = [f"{ind}{i} = 0", f"{ind}while {i} < {r.randint(1, 4)}:", f"{i2}{i} += 1"]
+            out += self.block(i2, depth - 1, None, True)
+            if r.random() < 0.5:
+                out += [f"{i2}if {self.cond()}:", f"{i2}    {r.choice(['break', 'continue'])}"] + self.assign(i2)
+            if r.random() < 0.5:
+                out += [f"{ind}else:"] + self.block(i2, depth - 1, r.randint(1, 2), in_loop)
+            return out
+        if k < 0.93:
+            x = r.choice(sorted(self.vars))
+            arms = list(FLOW_KINDS[self.vars[x]][3])
+            out = [f"{ind}match {x}:"]
+            for a in arms:
+                if a != "case _:" and r.random() < 0.25:
+                    continue
+                out += [f"{i2}{a.format(x=x).replace('{{', '{').replace('}}', '}')}", f"{i2}    reveal_type({x})"] + self.block(i2 + "    ", depth - 1, r.randint(1, 2), in_loop)
+            return out
+        if in_loop:
+            return self.assign(ind)
+        # closure / lambda capturing (possibly narrowed) locals; called now and at the end
+        g = self.fresh("g")
+        self.closures.append(g)
+        if r.random() < 0.7:
+            return [f"{ind}def {g}() -> int:"] + self.probe(i2) + self.probe(i2) + [f"{i2}return 0", f"{ind}{g}()"]
+        x = r.choice(sorted(self.vars))
+        return [f"{ind}{g}: Callable[[], object] = lambda: reveal_type({x})", f"{ind}{g}()"]
+
+    def program(self) -> tuple[str, list[str]]:
+        r = self.r
+        self.closures: list[str] = []
+        ind = "    "
+        body = [f"{ind}TRIGGER[0] = trigger"]
+        for x, k in sorted(self.vars.items()):
+            ann, vals, _, _ = FLOW_KINDS[k]
+            body.append(f"{ind}{x}: {ann} = a_{x}")
+            if r.random() < 0.6:
+                body.append(f"{ind}{x} = {r.choice(vals).replace('{{', '{').replace('}}', '}')}")
+        main = self.block(ind, 3, r.randint(3, 5))
+        # every closure is defined before use only on some paths: call the ones surely defined (top level) at the end
+        tail = []
+        for x in sorted(self.vars):
+            tail.append(f"{ind}reveal_type({x})")
+        params = ", ".join(["trigger: int", "yb: Base"] + [f"a_{x}: {FLOW_KINDS[k][0]}" for x, k in sorted(self.vars.items())])
+        src = FLOW_HEADER + f"def run({params}) -> int:\n" + "\n".join(body + main + tail) + "\n    return 0\n"
+        calls = []
+        for t in range(self.marks + 1):
+            for _ in range(2):
+                args = [str(t), r.choice(["Kind.K1", "Kind.K2"])] + [r.choice(FLOW_KINDS[k][1]).replace('{{', '{').replace('}}', '}') for _, k in sorted(self.vars.items())]
+                args = [a if a != "yb" else "Kind.K2" for a in args]
+                calls.append("run(" + ", ".join(args) + ")")
+        return src, calls
+
+
+def directed_shard() -> list[tuple[str, str, list[str]]]:
+    """fixed, seed-independent shapes (each well typed for a correct checker; probes carry the oracle)"""
+    out: list[tuple[str, str, list[str]]] = []
+    H = FLOW_HEADER
+    # (a) assignment in an inner try / with, exception handled by an OUTER handler
+    for depth in (2, 3):
+        inner = ["x = None", "mark(1)", "x = 2", "mark(2)"]
+        lines = [f"{'    ' * (depth + 1)}{l}" for l in inner]
+        for d in range(depth, 0, -1):
+            pad = "    " * d
+            lines = [f"{pad}try:"] + lines + [f"{pad}except E{'3' if d > 1 else '2'}:", f"{pad}    reveal_type(x)",
+                                               f"{pad}    y = -1 if x is None else x + 1", f"{pad}    reveal_type(y)"]
+            if d > 1:
+                lines += [f"{pad}    x = 3"]
+        src = H + "def run(trigger: int) -> int:\n    TRIGGER[0] = trigger\n    x: Optional[int] = None\n    x = 1\n" + \
+            "\n".join(lines) + "\n    reveal_type(x)\n    return 0\n"
+        out.append((f"nested-try-{depth}", src, [f"run({t})" for t in range(4)]))
+    src = H + """def run(trigger: int, sw: bool) -> int:
+    TRIGGER[0] = trigger
+    x: Union[int, str, None] = None
+    x = 1
+    try:
+        with Maybe(sw):
+            x = None
+            mark(1)
+            x = 's'
+            mark(4)
+        reveal_type(x)
+        mark(7)
+    except E2:
+        reveal_type(x)
+        if x is None:
+            return -1
+        return len(x) if isinstance(x, str) else x + 1
+    finally:
+        reveal_type(x)
+    reveal_type(x)
+    return 0
+"""
+    out.append(("with-in-try", src, [f"run({t}, {sw})" for t in (0, 1, 4, 7) for sw in ("True", "False")]))
+    # (b) closures capturing a narrowed local that is reassigned later in for-else / while-else / try-else / match arm
+    shapes = {
+        "for-else": "    for i in xs:\n        if i == trigger:\n            break\n    else:\n        x = None\n",
+        "while-else": "    n = 0\n    while n < len(xs):\n        if xs[n] == trigger:\n            break\n        n += 1\n    else:\n        x = None\n",
+        "try-else": "    try:\n        mark(1)\n    except E2:\n        pass\n    else:\n        x = None\n",
+        "match-arm": "    match trigger:\n        case 0:\n            pass\n        case _:\n            x = None\n",
+        "nested-for-else": "    for i in xs:\n        for j in xs:\n            if j == trigger:\n                break\n        else:\n            x = None\n",
+    }
+    for name, shape in shapes.items():
+        src = H + "def run(trigger: int, xs: List[int]) -> int:\n    TRIGGER[0] = trigger\n    x: Optional[str] = None\n    x = 'ab'\n" \
+            "    def g() -> int:\n        reveal_type(x)\n        return -1 if x is None else len(x)\n" \
+            "    h: Callable[[], object] = lambda: reveal_type(x)\n    g()\n" + shape + "    h()\n    return g()\n"
+        out.append((f"closure-{name}", src, ["run(0, [1, 2])", "run(1, [1, 2])", "run(5, [])", "run(2, [2])"]))
+    # (c) identity / equality / `in` with member-less enum base, single-member enum, Flag, bool, None
+    src = H + """def run(x: Union[Base, int], y: Base, z: Union[One, int, None], b: Union[bool, str]) -> int:
+    if x is y:
+        reveal_type(x)
+    else:
+        reveal_type(x)
+    if x == y:
+        reveal_type(x)
+    else:
+        reveal_type(x)
+    if x in (y,):
+        reveal_type(x)
+    else:
+        reveal_type(x)
+    if x is not y:
+        reveal_type(x)
+    if z is One.ONLY:
+        reveal_type(z)
+    else:
+        reveal_type(z)
+    if z == One.ONLY:
+        reveal_type(z)
+    else:
+        reveal_type(z)
+    if b is True:
+        reveal_type(b)
+    elif b is False:
+        reveal_type(b)
+    else:
+        reveal_type(b)
+    return 0
+"""
+    calls = ["run(Kind.K1, Kind.K2, One.ONLY, True)", "run(Kind.K1, Kind.K1, 3, False)", "run(5, Kind.K2, None, 's')",
+             "run(Kind.K2, Kind.K1, One.ONLY, '')"]
+    out.append(("identity-enums", src, calls))
+    # Flag enums: composite values are members of the class but of none of its named literals
+    src = H + """def run(p: Union[Perm, None]) -> int:
+    if p is Perm.R:
+        reveal_type(p)
+        return 1
+    else:
+        reveal_type(p)
+    if p is None:
+        return 0
+    if p is Perm.W:
+        return 2
+    else:
+        reveal_type(p)
+        return 3
+"""
+    out.append(("flag-identity", src, ["run(Perm.R)", "run(Perm.W)", "run(None)", "run(Perm.R | Perm.W)"]))
+    return out
